@@ -16,7 +16,10 @@ SPEC = dict(
                 "component produced at least one token / changed the stream; distinct = distinct Coq case terms. Oracle "
                 "evaluations: no panic / no hang per call, offsets and increments per stage, pure-tokenizer slice equality, "
                 "determinism (two runs, stored field value unchanged), TokenFrequency clauses, MatchQuery(AND) round trip on a "
-                "one-document index."),
+                "one-document index; per-language exhaustive sweep: every word of 1..6 letters over the 7 letters most used by the "
+                "language package's rule code (read from the Go source at run time) through each stemmer/normaliser filter, the words "
+                "up to 5 letters through the bundled analyzer, plus mutations of the words of the package's test tables and stop-word "
+                "list (~5.5 million direct calls per run: no panic, offsets/increments, determinism on a sample)."),
     trust=["unicode tables (IsLetter, IsSpace, ToLower, Mn/Me/Mc) and TokenMap contents are parameters of the model, tabulated by the "
            "harness per case", "Base/UTF8.v models unicode/utf8 (Go standard library)"],
     assumptions=["components that are not modelled exactly (unicode/web/regexp/exception tokenizers, snowball and light stemmers, "
